@@ -48,6 +48,67 @@ var stmtList = []*stmtDef{
 	{tag: "U", text: "UPDATE ks.t SET v = ? WHERE k = ?", binds: "ti", names: []string{"v", "k"}},
 }
 
+// Pairs of DISTINCT statements whose texts are "almost equal": the variant differs from the base text only in the
+// white space inside a string literal / a quoted identifier, in letter case (inside a literal, inside a quoted identifier,
+// of the keywords) or in a leading / trailing blank or a trailing semicolon. A server identifies a prepared statement by its
+// exact text, so the node issues different ids for the two and the driver has to keep them apart.
+const (
+	simSelect = `SELECT "My Col" FROM ks.t WHERE k = ? AND c = 'a b'`
+	simInsert = `INSERT INTO ks.t (k, "My Col") VALUES (?, 'a b')`
+)
+
+func lowerOutsideQuotes(s string) string {
+	b := []byte(s)
+	var quote byte
+	for i, ch := range b {
+		switch {
+		case quote != 0:
+			if ch == quote {
+				quote = 0
+			}
+		case ch == '\'' || ch == '"':
+			quote = ch
+		case ch >= 'A' && ch <= 'Z':
+			b[i] = ch + 'a' - 'A'
+		}
+	}
+	return string(b)
+}
+
+var simKinds = []struct {
+	kind string
+	f    func(base string) string
+}{
+	{"lit-2sp", func(b string) string { return strings.Replace(b, "'a b'", "'a  b'", 1) }},
+	{"lit-tab", func(b string) string { return strings.Replace(b, "'a b'", "'a\tb'", 1) }},
+	{"lit-nl", func(b string) string { return strings.Replace(b, "'a b'", "'a\nb'", 1) }},
+	{"qid-2sp", func(b string) string { return strings.Replace(b, `"My Col"`, `"My  Col"`, 1) }},
+	{"lit-case", func(b string) string { return strings.Replace(b, "'a b'", "'A b'", 1) }},
+	{"qid-case", func(b string) string { return strings.Replace(b, `"My Col"`, `"my col"`, 1) }},
+	{"kw-case", lowerOutsideQuotes},
+	{"lead-sp", func(b string) string { return " " + b }},
+	{"trail-sp", func(b string) string { return b + " " }},
+	{"trail-semi", func(b string) string { return b + ";" }},
+}
+
+func init() {
+	stmtList = append(stmtList,
+		&stmtDef{tag: "S", text: simSelect, binds: "i", names: []string{"k"}, res: 't', rcol: "My Col"},
+		&stmtDef{tag: "J", text: simInsert, binds: "i", names: []string{"k"}})
+	for _, k := range simKinds {
+		stmtList = append(stmtList,
+			&stmtDef{tag: "S~" + k.kind, text: k.f(simSelect), binds: "i", names: []string{"k"}, res: 't', rcol: "My Col"},
+			&stmtDef{tag: "J~" + k.kind, text: k.f(simInsert), binds: "i", names: []string{"k"}})
+	}
+	seen := map[string]string{}
+	for _, d := range stmtList {
+		if o, dup := seen[d.text]; dup {
+			panic("c14: statements " + o + " and " + d.tag + " have the same text")
+		}
+		seen[d.text] = d.tag
+	}
+}
+
 func stmtByTag(tag string) *stmtDef {
 	for _, d := range stmtList {
 		if d.tag == tag {
@@ -141,7 +202,7 @@ type opInfo struct {
 	err    error
 	got    string // what Scan produced ("" for void / error)
 	rows   int
-	// context scenarios: every operation has its OWN context; only thread 1's first operation's is ever ended
+	// context scenarios: every operation has its OWN context; only the victim's (the first operation of a freely chosen thread) is ever ended
 	ctx      context.Context
 	cancel   context.CancelFunc
 	ctxEnded bool // a canceller thread cancels it / it carries a deadline
@@ -230,7 +291,8 @@ type world struct {
 	told     map[int]map[string]bool // operation -> ids it was told are unknown
 	maxLen   int
 	cancelAt int // seq stamp of the canceller's cancel() (0: not yet / none)
-	phase    int // 1: a PREPARE has reached a node; 2: an EXECUTE of the victim operation (thread 1, op 0) has reached a node
+	victim   *opInfo // context scenarios: the operation whose context ends (first operation of a freely chosen executor)
+	phase    int // 1: a PREPARE has reached a node; 2: an EXECUTE of the victim operation has reached a node
 	gate     int // phase the canceller waits for (free choice)
 	finished int // executor threads that have returned
 }
@@ -437,7 +499,7 @@ func (w *world) handler(ip string, idx int) vnode.Handler {
 			where := fmt.Sprintf("EXECUTE #%d at %s", el.seq, ip)
 			e, ok := w.checkEntry(ns, m.ID, m.Params.Values, 0, where)
 			el.entries = []execEntry{e}
-			if e.op == 10 && w.phase < 2 {
+			if w.victim != nil && e.op == w.victim.key && w.phase < 2 {
 				w.phase = 2
 			}
 			if e.rec == nil {
@@ -536,7 +598,9 @@ type c14cfg struct {
 	threads    [][]opSpec
 	prepFaults int    // 0: PREPARE always succeeds; 1: may be answered with an ERROR frame; 2: ... or never answered
 	unprep     bool   // EXECUTE/BATCH may be answered UNPREPARED (the node forgets the id)
-	ctxEnd     string // "": no contexts. "cancel": every operation runs under its own context and a canceller thread cancels the one of thread 1's first operation at an arbitrary point; "deadline": that context has a 20ms deadline instead
+	ctxEnd     string // "": no contexts. "cancel": every operation runs under its own context and a canceller thread cancels the one of the victim (first operation of a freely chosen executor) at an arbitrary point; "deadline": that context has a 20ms deadline instead
+	joinLate   bool   // cancel scenarios: the executors other than thread 1 start only once a PREPARE has reached a node (they can then only JOIN it)
+	gates      int    // cancel scenarios: number of canceller gates to choose from (0: all three)
 	latePrep   bool   // a successful PREPARE may be answered 30ms late (free choice): the window in which the winner's context ends
 	lateStale  bool   // UNPREPARED answers for an id forgotten earlier may be delayed by 30ms (free choice)
 	keyspace   string
@@ -600,11 +664,16 @@ func (c *c14cfg) body() {
 
 	nWait := len(c.threads)
 	done := make(chan int, len(c.threads)+1)
+	late := false
 	if c.ctxEnd != "" {
+		// the victim: the first operation of ANY executor (free choice) - by default thread 1 wins the race to PREPARE and the
+		// others wait on its PREPARE, so this covers the winner's and a waiter's context ending
+		w.victim = w.ops[10*(1+vs.Choose(len(c.threads), vs.Free))]
+		w.victim.ctxEnded = true
+		late = c.joinLate
 		for _, o := range all {
-			if c.ctxEnd == "deadline" && o.th == 1 && o.oi == 0 {
+			if c.ctxEnd == "deadline" && o == w.victim {
 				o.ctx, o.cancel = context.WithTimeout(context.Background(), 20*time.Millisecond)
-				o.ctxEnded = true
 			} else {
 				o.ctx, o.cancel = context.WithCancel(context.Background())
 			}
@@ -613,10 +682,15 @@ func (c *c14cfg) body() {
 	for ti := range c.threads {
 		ti := ti
 		vs.GoNamed(fmt.Sprintf("exec%d", ti+1), func() {
+			if late && ti > 0 {
+				// arrives while a PREPARE is in flight (or after an executor has returned without one)
+				w.touch()
+				vs.PointObj("join-late", func() bool { return w.phase >= 1 || w.finished > 0 }, unsafe.Pointer(&w.obj), false)
+			}
 			for oi := range c.threads[ti] {
 				w.run(w.ops[10*(ti+1)+oi])
 			}
-			if c.ctxEnd == "cancel" {
+			if c.ctxEnd != "" {
 				w.touch()
 				w.finished++
 			}
@@ -624,13 +698,16 @@ func (c *c14cfg) body() {
 		})
 	}
 	if c.ctxEnd == "cancel" {
-		victim := w.ops[10]
-		victim.ctxEnded = true
+		victim := w.victim
 		nWait++
 		vs.GoNamed("canceller", func() {
 			// where the cancel lands: as soon as the canceller is scheduled (0), once a PREPARE is at the node and
 			// unanswered (1), or once the victim's own EXECUTE is at the node (2); schedule deviations move it further
-			w.gate = vs.Choose(3, vs.Free)
+			ng := 3
+			if c.gates > 0 {
+				ng = c.gates
+			}
+			w.gate = vs.Choose(ng, vs.Free)
 			w.touch()
 			vs.PointObj("canceller-gate", func() bool { return w.phase >= w.gate || w.finished == len(c.threads) }, unsafe.Pointer(&w.obj), false)
 			w.cancelAt = w.next()
@@ -712,8 +789,11 @@ func (w *world) describe(all []*opInfo) string {
 		}
 		b = append(b, fmt.Sprintf("#%d PREPARE %s@%s=%s%s %s%s", p.seq, p.def.tag, p.host, p.outcome, late, p.id, p.msg))
 	}
+	if w.victim != nil && w.cancelAt == 0 {
+		b = append(b, fmt.Sprintf("context of %s ends (%s, not cancelled yet)", w.victim.name(), w.cfg.ctxEnd))
+	}
 	if w.cancelAt > 0 {
-		b = append(b, fmt.Sprintf("#%d cancel of t1.op0's context (gate %d)", w.cancelAt, w.gate))
+		b = append(b, fmt.Sprintf("#%d cancel of %s's context (gate %d)", w.cancelAt, w.victim.name(), w.gate))
 	}
 	for _, e := range w.execs {
 		kind := "EXECUTE"
@@ -753,7 +833,7 @@ func (w *world) oracle(all []*opInfo) {
 	// failed PREPARE, a forgotten id, or a possible eviction (more cache keys than MaxPreparedStmts).
 	evictionPossible := c.max > 0 && c.hosts*c.distinctStatements() > c.max
 	type hk struct{ host, tag string }
-	nPrep, nLost := map[hk]int{}, map[hk]int{}
+	nPrep, nLost, nForgot := map[hk]int{}, map[hk]int{}, map[hk]int{}
 	for _, p := range w.prepares {
 		k := hk{p.host, p.def.tag}
 		nPrep[k]++
@@ -765,16 +845,54 @@ func (w *world) oracle(all []*opInfo) {
 		for _, pr := range ns.byID {
 			if pr.forgotten {
 				nLost[hk{pr.host, pr.def.tag}]++
+				nForgot[hk{pr.host, pr.def.tag}]++
 			}
 		}
 	}
-	if c.ctxEnd != "" {
-		// a PREPARE abandoned because its initiator's context ended may be followed by another one
-		for k := range nPrep {
-			nLost[k]++
+	if v := w.victim; v != nil {
+		// a PREPARE abandoned because its INITIATOR's context ended may be followed by another one: the allowance covers the
+		// PREPARE that FOLLOWS one the victim may have initiated. The victim can have initiated only a PREPARE that reached the
+		// node after the victim's operation had started (the initiator may return before its PREPARE is on the wire), so the
+		// allowance needs two PREPAREs of the victim's statement after that moment; a victim that started when a PREPARE had
+		// already reached the node merely waited on it, and a single later PREPARE has no excuse.
+		after := map[hk]int{}
+		for _, p := range w.prepares {
+			if p.def.tag == v.spec.entries[0] && v.start < p.seq {
+				after[hk{p.host, p.def.tag}]++
+			}
+		}
+		for k, n := range after {
+			if n >= 2 {
+				nLost[k]++
+			}
 		}
 	}
 	if !evictionPossible && dDev == 0 {
+		// "all of them then execute with the id that PREPARE returned": as long as the node has not forgotten an id of this
+		// (host, statement), every EXECUTE / BATCH entry of the statement carries ONE id - also when a caller's context ended
+		// (a PREPARE that was abandoned with its initiator is used by nobody)
+		ids := map[hk][]string{}
+		for _, e := range w.execs {
+			for _, en := range e.entries {
+				if en.rec == nil {
+					continue
+				}
+				k := hk{en.rec.host, en.rec.def.tag}
+				if dup := false; nForgot[k] == 0 {
+					for _, id := range ids[k] {
+						dup = dup || id == en.id
+					}
+					if !dup {
+						ids[k] = append(ids[k], en.id)
+					}
+				}
+			}
+		}
+		for k, l := range ids {
+			if len(l) > 1 {
+				vs.Failf("c14:executions-with-ids-of-different-PREPAREs", "host %s received executions of statement %s with the ids %v of different PREPAREs although it forgot none of them and no eviction is possible: %s", k.host, k.tag, l, desc())
+			}
+		}
 		for k, n := range nPrep {
 			if n > 1+nLost[k] {
 				key := "c14:statement-prepared-more-than-once"
@@ -949,15 +1067,25 @@ func main() {
 		// 5. batches with prepared entries
 		{name: "batch-and-query", hosts: 1, threads: [][]opSpec{T(batch("I", "U")), T(q("I"), batch("U", "I"))}, prepFaults: 1, unprep: true, lateStale: true, grp: "t2-batch-arity", quick: true},
 		{name: "batch-lru1", hosts: 1, max: 1, threads: [][]opSpec{T(batch("I", "U")), T(batch("U", "U"))}, prepFaults: 1, unprep: true, t: [2]int{2, 3}},
-		// 7. every executor has its own context; the one of the executor that (by default) wins the race to PREPARE ends
-		// (cancelled by a canceller thread at an arbitrary point / 20ms deadline) while the shared PREPARE may be answered 30ms late
-		{name: "cancel-winner-2-threads", hosts: 1, threads: [][]opSpec{T(q("A")), T(q("A"))}, prepFaults: 1, unprep: true, ctxEnd: "cancel", t: [2]int{2, 3}},
-		{name: "cancel-winner-3-threads", hosts: 1, threads: [][]opSpec{T(q("A")), T(q("A")), T(q("A"))}, ctxEnd: "cancel", grp: "t12-context", quick: true},
-		{name: "deadline-winner-2+1", hosts: 1, threads: [][]opSpec{T(q("A")), T(q("A"), q("A"))}, ctxEnd: "deadline", latePrep: true, grp: "t12-context", quick: true},
+		// 7. every executor has its own context; the context of the first operation of ANY one executor (free choice: the one that
+		// by default wins the race to PREPARE, or one that waits on the winner's PREPARE) ends (cancelled by a canceller thread at an
+		// arbitrary point / 20ms deadline) while the shared PREPARE may be answered 30ms late; in the 2+1 / 1+2 / deadline
+		// configurations the victim's thread or another one executes the statement AGAIN while that PREPARE is still unanswered
+		{name: "cancel-any-2-threads", hosts: 1, threads: [][]opSpec{T(q("A")), T(q("A"))}, prepFaults: 1, unprep: true, ctxEnd: "cancel", t: [2]int{2, 3}},
+		{name: "cancel-any-3-threads", hosts: 1, threads: [][]opSpec{T(q("A")), T(q("A")), T(q("A"))}, ctxEnd: "cancel", grp: "t12-context", quick: true},
+		{name: "cancel-any-2+1", hosts: 1, threads: [][]opSpec{T(q("A"), q("A")), T(q("A"))}, ctxEnd: "cancel", gates: 2, latePrep: true, grp: "t12-context-rejoin", quick: true},
+		{name: "cancel-late-joiner-1+2", hosts: 1, threads: [][]opSpec{T(q("A")), T(q("A"), q("A"))}, ctxEnd: "cancel", gates: 2, latePrep: true, joinLate: true, grp: "t12-context-rejoin", quick: true},
+		{name: "deadline-any-2+1", hosts: 1, threads: [][]opSpec{T(q("A")), T(q("A"), q("A"))}, ctxEnd: "deadline", latePrep: true, grp: "t12-context", quick: true},
 		// 6. wrong number of bound values
 		{name: "wrong-arity-2-threads", hosts: 1, threads: [][]opSpec{T(qN("A", 2)), T(q("A"))}, prepFaults: 1, unprep: true, t: [2]int{2, 3}},
 		{name: "wrong-arity-batch", hosts: 1, keyspace: "ks", threads: [][]opSpec{T(q("I"), qN("I", 0)), T(batchN("I", 1, "U"))}, prepFaults: 1, unprep: true, grp: "t2-batch-arity", quick: true},
 		{name: "wrong-arity-3-threads", hosts: 1, keyspace: "ks", threads: [][]opSpec{T(qN("A", 2), q("A")), T(q("A"), qN("A", 0)), T(batchN("I", 1, "U"))}, prepFaults: 1, unprep: true, grp: "t2-batch-arity"},
+	}
+	// 8. pairs of distinct statements with almost equal texts (simKinds), as queries (SELECT) and as entries of one batch (INSERT)
+	for _, k := range simKinds {
+		cfgs = append(cfgs,
+			&c14cfg{name: "similar-" + k.kind, hosts: 1, threads: [][]opSpec{T(q("S")), T(q("S~"+k.kind), q("S"))}, unprep: true, grp: "t12-context", quick: true},
+			&c14cfg{name: "similar-batch-" + k.kind, hosts: 1, threads: [][]opSpec{T(batch("J", "J~"+k.kind)), T(q("J~" + k.kind))}, unprep: true, grp: "t12-similar", quick: true})
 	}
 	tier := os.Getenv("VERIF_TIER")
 	for i, a := range os.Args {
@@ -986,6 +1114,9 @@ func main() {
 				qt = 1
 			}
 			defs = append(defs, mcreport.Def{Name: g.name, Build: g.build, Quick: b(qt), Thorough: b(2)})
+		}
+		if v := os.Getenv("C14_VARIANT"); v != "" && !strings.Contains(c.name, v) {
+			continue // development aid: explore only the matching variants of a group
 		}
 		if tier == "thorough" || c.quick {
 			g.variants = append(g.variants, c)
